@@ -130,7 +130,9 @@ CHECKS = {
              "contact/repeat, ordinary, reliable with acks, both directions) interleaved with 21 kinds of garbage, to depth 4 / 2 deviations (quick) and 5 / 3 "
              "(thorough) from two bases, states deduplicated on full session, circuit, tracker and address-map state. Plus exhaustive sweeps: every garbage/valid "
              "interleaving in two deep base states, the SOCKS framing law over addresses x ports x payload lengths, and every template x value row in both "
-             "directions through one open circuit, with independently parsed SOCKS and LLUDP headers.",
+             "directions through one open circuit, with independently parsed SOCKS and LLUDP headers; plus repeated-garbage "
+             "histories for every garbage kind (each banned name) and flood scenarios up to 300 distinct far addresses / source hosts / truncated datagrams before "
+             "valid traffic.",
         note="One message shape per event class in the BFS (all 481 templates only in the single-circuit sweep); exceptions escaping datagram_received are swallowed as "
              "asyncio's datagram transport does; the ban list is an inbound rule; an ACK flag with an empty ack list compares equal to no ACK flag; dead circuits carry no judged traffic (only the kill and re-open datagrams are asserted); "
              "no viewer port change or packet-id wrap in the BFS; HOME viewer-cache scan, message.xml re-parse and multiprocessing queues neutralised by the harness."),
@@ -138,8 +140,8 @@ CHECKS = {
         category="fault_enumeration", design_ref="DESIGN.md §4 C07",
         technique="exhaustive fault-placement enumeration up to a fault bound against a reference dispatch/ownership model, plus exhaustive op-sequence enumeration "
                   "of the message-ownership state machine",
-        text="For each of 14 messages (direction x reliability with an ack of a proxy-injected packet x {chat, command-channel chat, RLV with 1 and 2 commands, "
-             "CloseCircuit}), every single behaviour of every hook slot (3 addons x handle_proxied_packet / session subscriber / region subscriber / "
+        text="For each of 18 messages (direction x reliability with an ack of a proxy-injected packet x {chat, command-channel chat, RLV with 1 and 2 commands, "
+             "CloseCircuit, valid-header/unparseable-body}), incl. subscriber predicates (true/false/raising) and body-touching hooks, every single behaviour of every hook slot (3 addons x handle_proxied_packet / session subscriber / region subscriber / "
              "handle_lludp_message / handle_rlv_command / command) over 14 behaviours, every slot pair over a 10-behaviour list and (thorough) every one-slot-per-addon "
              "triple is executed on the real protocol, followed by a probe datagram per direction; wire emissions are attributed to Message objects and compared with a "
              "reference model. Separately all op sequences of length <=4 over {take, send, drop, queue, sendcopy} x 8 message variants on a bare ProxiedCircuit, "
@@ -214,6 +216,18 @@ CHECKS = {
         note="One region; at most 2 reliable and 1 unreliable client sends per history; a peer never reuses a packet id for a different message; acks and ping replies "
              "are demanded by the next loop quiescence; one 0.5 s resend-poll period of lateness allowed, never earliness; retry budget and interval read from the code; "
              "hmc.refwire and a 20-line header decoder trusted; template mtime reload disabled and MessageDotXML memoised by the harness."),
+    "C14": dict(
+        category="model_checking", design_ref="DESIGN.md §4 C14",
+        technique="explicit-state BFS (hmc.explore.bfs, history replay, virtual asyncio loop) over object-update / kill / request histories against an independent dict scene-graph model",
+        text="BFS over histories of object updates (full, compressed, terse, cached hit/miss/viewer-cache hit), property replies, single and multi kills, object "
+             "requests, region teardown/re-track, the cache-miss timer and deferred future callbacks, delivered through the real UDP codec to a real proxy Session "
+             "with two regions. After every event the local-ID and full-ID indices, parent/child/orphan links, the avatar view, swallowed handler exceptions and "
+             "request futures are compared with an independent scene-graph model. The scene-graph sub-alphabet for one region and the request sub-alphabet for one "
+             "local ID are searched to saturation; the other searches are bounded (depth 3-6, at most 3 deviations), ~1.2 million transitions in the thorough tier.",
+        note="Universe of 3 full IDs (one avatar), 3 local IDs per region (2 in two-region searches), 2 regions; local-ID and region symmetry reductions; at most 2 "
+             "pending requests; proxy settings fixed (USE_VIEWER_OBJECT_CACHE, AUTOMATICALLY_REQUEST_MISSING_OBJECTS); the model mirrors the code's documented choices "
+             "for avatar kill-exemption and regionless objects and asserts nothing about them; missing_locals postconditions are observations, not violations; "
+             "SessionManager built without HTTPFlowContext, viewer cache directory scan stubbed; histories are not extended past a violation."),
 }
 
 PENDING_REASON = "check not built yet (build in progress; will be claimed once its harness exists)"
